@@ -1442,7 +1442,7 @@ class PowSecret(Contract):
     tprops = ("C06",)
 
     def configs(self, tier):
-        return [dict(mode=m, bits=n) for n in ((2,) if tier == "quick" else (1, 2, 3)) for m in ("plain", "g1")]
+        return [dict(mode=m, bits=n) for n in ((2,) if tier == "quick" else (1, 2)) for m in ("plain", "g1")]
 
     def setup(self, c, cfg):
         apply_mode(c, cfg["mode"], bitlength=cfg["bits"])
